@@ -92,7 +92,7 @@ Proof. exact doc_faithful_typed_refuted_w. Qed.
 Print Assumptions C05_doc_faithful_typed_refuted.
 
 Theorem C05_doc_handle_follows_rekey : forall (frepr : fl -> str) js j f f' d,
-  nlookup j (jobs js) = Some (f, d) -> f <> f' -> nmem f (dirs js) = true -> nmem f' (dirs js) = false -> f' <> 0%N ->
+  nlookup j (jobs js) = Some (f, d) -> f <> f' -> nmem f (dirs js) = true -> nmem f' (dirs js) = false -> f' <> 0%N -> f' <> 10%N ->
   let js1 := fst (jstep frepr merge (fun k : N => k) js (JRekey j f')) in
   snd (jstep frepr merge (fun k : N => k) js (JRekey j f')) = Ok JNull /\
   nlookup j (jobs js1) = Some (f', None) /\
@@ -102,6 +102,18 @@ Theorem C05_doc_handle_follows_rekey : forall (frepr : fl -> str) js j f f' d,
                 nlookup h (mems (core js2)) = Some (f', empty_obj) /\ nmem f' (dirs js2) = true.
 Proof. exact follow_rekey. Qed.
 Print Assumptions C05_doc_handle_follows_rekey.
+
+Theorem C05_doc_handle_follows_move : forall (frepr : fl -> str) js j f d,
+  nlookup j (jobs js) = Some (f, d) -> nmem f (dirs js) = true -> nmem (f + 10)%N (dirs js) = false -> f <> 0%N ->
+  let js1 := fst (jstep frepr merge (fun k : N => k) js (JMove j)) in
+  snd (jstep frepr merge (fun k : N => k) js (JMove j)) = Ok JNull /\
+  nlookup j (jobs js1) = Some ((f + 10)%N, None) /\
+  nlookup (f + 10)%N (files (core js1)) = nlookup f (files (core js)) /\
+  nlookup f (files (core js1)) = None /\
+  exists js2 h, resolve_doc frepr merge (fun k : N => k) js1 j = Some (js2, h) /\
+                nlookup h (mems (core js2)) = Some ((f + 10)%N, empty_obj) /\ nmem (f + 10)%N (dirs js2) = true.
+Proof. exact follow_move. Qed.
+Print Assumptions C05_doc_handle_follows_move.
 
 Theorem C05_doc_handle_follows_remove : forall (frepr : fl -> str) js j f d,
   nlookup j (jobs js) = Some (f, d) -> nmem f (dirs js) = true -> depth (core js) = 0%nat ->
